@@ -32,7 +32,8 @@ REQUIRED = [
     "M44_extractSHRT_recompose_partial", "M44_sansScaling_recompose_partial", "M44_computeRSMatrix_tail",
     "M44_computeRSMatrix_degenerate_partial",
     "twoSidedJacobiRotation_invariant3", "twoSidedJacobiRotation_invariant4", "jacobiSVD_run_invariant3", "jacobiSVD_run_invariant4",
-    "jacobiSVD_from_identity3", "jacobiSVD_from_identity4", "jacobiSVD_post3", "jacobiSVD_post4_partial",
+    "jacobiSVD_from_identity3", "jacobiSVD_from_identity4", "twoSidedJacobiRotation_computed_parameters",
+    "twoSidedJacobiRotation_tol0_invariant", "jacobiSVD_sweeps_tol0_invariant3", "jacobiSVD_sweeps_tol0_invariant4", "jacobiSVD_post3", "jacobiSVD_post4_partial",
     "jacobiSVD_forcePositiveDeterminant", "maxEigenVector_index3", "minEigenVector_index3", "trigSpec_real"]
 REQUIRED_FULL = ["M33_sansScaling_recompose", "M33_removeScaling_recompose"]
 
@@ -194,13 +195,68 @@ def defect_search(chk, sym_binary, name):
                            "`M.rotate (rot); M.shear (shr); M[2][0] = tran.x; M[2][1] = tran.y;` (for removeScaling on `mat` after makeIdentity)"}
 
 
+def _mm(a, b):
+    n = len(a)
+    return [[sum(a[i][k] * b[k][j] for k in range(n)) for j in range(n)] for i in range(n)]
+
+
+def wrapper_search(chk, sym_binary, name):
+    """a broken wrapper theorem: run the real function (double) on M = S*H*R*T built from known factors (R = rotation by the
+    3-4-5 angle about z, positive scales, so the Gram-Schmidt factors are unique) and compare with what the property says"""
+    import math
+    m = re.match(r"M(33|44)_([A-Za-z]+)", name)
+    if not m or not sym_binary:
+        return None
+    dim, fn = m.group(1), m.group(2)
+    if fn.endswith("Exc"):
+        fn = fn[:-3]
+    if dim == "44":
+        S = [[2, 0, 0, 0], [0, 3, 0, 0], [0, 0, 5, 0], [0, 0, 0, 1]]
+        H = [[1, 0, 0, 0], [0.5, 1, 0, 0], [0.25, -0.5, 1, 0], [0, 0, 0, 1]]
+        R = [[0.8, 0.6, 0, 0], [-0.6, 0.8, 0, 0], [0, 0, 1, 0], [0, 0, 0, 1]]
+        T = [[1, 0, 0, 0], [0, 1, 0, 0], [0, 0, 1, 0], [3, 4, 5, 1]]
+        scl, shr, tr, rot = [2, 3, 5], [0.5, 0.25, -0.5], [3, 4, 5], [0, 0, math.atan2(0.6, 0.8)]
+    else:
+        S = [[2, 0, 0], [0, 3, 0], [0, 0, 1]]
+        H = [[1, 0, 0], [0.5, 1, 0], [0, 0, 1]]
+        R = [[0.8, 0.6, 0], [-0.6, 0.8, 0], [0, 0, 1]]
+        T = [[1, 0, 0], [0, 1, 0], [3, 4, 1]]
+        scl, shr, tr, rot = [2, 3], [0.5], [3, 4], [math.atan2(0.6, 0.8)]
+    M = _mm(_mm(_mm(S, H), R), T)
+    flat = lambda a: [x for row in a for x in row]
+    RT, HRT = flat(_mm(R, T)), flat(_mm(_mm(H, R), T))
+    expect = {"extractScaling": ([1], scl), "extractScalingAndShear": ([1], scl + shr), "sansScalingAndShear": ([], RT),
+              "removeScalingAndShear": ([1], RT), "extractSHRT": ([1], scl + shr + rot + tr),
+              "sansScaling": ([], HRT), "removeScaling": ([1], HRT)}
+    if fn not in expect or (dim == "33" and fn in ("sansScaling", "removeScaling")):
+        return None
+    cmd = [sym_binary, "real", "M%s.%s" % (dim, fn)] + ["%r" % float(x) for x in flat(M)]
+    for d in idx_deps():
+        cmd += ["--idx", d]
+    rc, out = lib.sh(cmd, timeout=120)
+    line = out.strip().split("\n")[-1] if out.strip() else ""
+    mv = re.search(r"exc=(\S+) vals=(.*?)ints=(.*)", line)
+    if not mv:
+        return None
+    vals = [float(x) for x in mv.group(2).split()]
+    ints = [int(x) for x in mv.group(3).split()]
+    eints, evals = expect[fn]
+    bad = mv.group(1) != "-" or ints != eints or len(vals) != len(evals) or any(abs(a - b) > 1e-9 for a, b in zip(vals, evals))
+    if not bad:
+        return None
+    return {"key": "theorem:" + name, "function": "M%s.%s" % (dim, fn),
+            "input": "M = S*H*R*T with S=%s, shear=%s, R = rotation by the 3-4-5 angle (cos .8, sin .6), T=%s" % (scl, shr, tr),
+            "input_matrix_row_major": flat(M), "expected (exception, bools, values)": ["-", eints, evals],
+            "real_code_at_double": line}
+
+
 def generic_search(chk, state, name):
     """a broken theorem about a hand model: look for a model/real-code difference (the tie), else nothing"""
     first = state.get("corr_first") or {}
     for k in ("ear33", "ear44", "jstep3", "jstep4"):
         if k in first and (("M33" in name and k == "ear33") or ("M44" in name and k == "ear44") or ("Jacobi" in name and k.startswith("jstep"))):
             return dict(first[k], key="theorem:" + name)
-    return None
+    return wrapper_search(chk, state.get("sym"), name)
 
 
 # ---------------------------------------------------------------------------------------------------------------
@@ -235,7 +291,7 @@ def run(chk):
             chk.fail("build:" + nm, "build:" + nm, "harness no longer compiles against the current sources (tie broken)",
                      {"compiler_errors": [l for l in log.split("\n") if "error" in l][:12]}, False)
         bins[nm] = path if ok else None
-    state = {}
+    state = {"sym": bins.get("sym_c12")}
     if bins.get("sym_leaf"):
         troute.regenerate(chk, bins["sym_leaf"], "leaf")
     if bins.get("sym_c12"):
